@@ -4,6 +4,7 @@
   the successor still accepts, the predecessor accepts too (`StepOK`, `seg_step`).
 -/
 import YaraModel.Lemmas.ReIr
+import YaraModel.Lemmas.ReVmSpecG
 namespace YaraModel.ReEmit
 open YaraModel.Re YaraModel.ReVm
 
@@ -18,9 +19,9 @@ structure Dir (e : Env) where
   L : Re → Nat → Nat → Prop
   ok : Nat → Prop
   cons : ∀ {r : Re} {a : Nat} {f : Fiber} {bm : Nat}, LeafCode e.code r a → f.ip = a → isConsuming (u8 e.code a) = true →
-      consumeOk e bm f = true → L r bm (bm + e.cs)
+      ok bm → consumeOk e bm f = true → L r bm (bm + e.cs)
   any : ∀ {f : Fiber} {bm : Nat}, (u8 e.code f.ip = OP_REPEAT_ANY_GREEDY ∨ u8 e.code f.ip = OP_REPEAT_ANY_UNGREEDY) →
-      consumeOk e bm f = true → L .any bm (bm + e.cs)
+      ok bm → consumeOk e bm f = true → L .any bm (bm + e.cs)
   zw : ∀ {r : Re} {a : Nat} {bm : Nat}, LeafCode e.code r a → isConsuming (u8 e.code a) = false → ok bm →
       zeroWidthOk e bm (u8 e.code a) = true → L r bm bm
   ok0 : ok 0
@@ -37,7 +38,7 @@ def StepOK (e : Env) (D : Dir e) (r : Ir) (a b B : Nat) (K : Lang) (f : Fiber) (
       ∀ q q', langF D.L r a B K g .run q q' → langF D.L r a B K f m q q') ∧
   (∀ g stop, AStep e.code f g stop → m ≠ .wait → (ValidF r a B g (modeAfter stop) ∨ AtEnd b B g (modeAfter stop)) ∧ g.stack = f.stack ∧
       ∀ q q', langF D.L r a B K g (modeAfter stop) q q' → langF D.L r a B K f m q q') ∧
-  (∀ bm, isConsuming (u8 e.code f.ip) = true → consumeOk e bm f = true → (isAnyOp (u8 e.code f.ip) → m = .wait) → m ≠ .post →
+  (∀ bm, D.ok bm → isConsuming (u8 e.code f.ip) = true → consumeOk e bm f = true → (isAnyOp (u8 e.code f.ip) → m = .wait) → m ≠ .post →
       (ValidF r a B (advance e.code f) (modeCons e.code f) ∨ AtEnd b B (advance e.code f) (modeCons e.code f)) ∧
       ∀ q', langF D.L r a B K (advance e.code f) (modeCons e.code f) (bm + e.cs) q' → langF D.L r a B K f m bm q') ∧
   (u8 e.code f.ip ≠ OP_MATCH) ∧
@@ -72,7 +73,7 @@ theorem leaf_step (e : Env) (D : Dir e) (r : Re) (a B : Nat) (K : Lang) (f : Fib
   · intro g st hg
     exfalso
     exact no_astep hg (by rw [hip]; exact hnany)
-  · intro bm hcons hc' _ _
+  · intro bm hokb hcons hc' _ _
     rw [hip] at hcons
     rcases hkind with ⟨_, hsz⟩ | ⟨hnc, _⟩
     · have hadv := advance_ip (f := f) (hip ▸ rfl : u8 e.code f.ip = u8 e.code a) hnany
@@ -84,7 +85,7 @@ theorem leaf_step (e : Env) (D : Dir e) (r : Re) (a B : Nat) (K : Lang) (f : Fib
       have hne : ¬ (f.ip + sizeOfInstr (u8 e.code a) = a) := by omega
       rw [if_neg hne] at hq'
       rw [if_pos hip]
-      exact ⟨_, D.cons hc hip hcons hc', hq'⟩
+      exact ⟨_, D.cons hc hip hcons hokb hc', hq'⟩
     · rw [hnc] at hcons; simp at hcons
   · rw [hip]; exact hnm
   · intro bm hok hncons hz
@@ -157,7 +158,7 @@ theorem jump_step (e : Env) (D : Dir e) (a B lo hi : Nat) (g : Bool) (K : Lang) 
       | run => exact key
       | wait => exact absurd rfl hmw
       | post => exact key
-  · intro bm _ hc hmw hmp
+  · intro bm hokb _ hc hmw hmp
     have hwait : m = .wait := hmw hopf
     have hadv : advance e.code f = f := by unfold advance; rw [if_pos hopf]
     have hmc : modeCons e.code f = .post := by unfold modeCons; rw [if_pos hopf]
@@ -174,7 +175,7 @@ theorem jump_step (e : Env) (D : Dir e) (a B lo hi : Nat) (g : Bool) (K : Lang) 
       simp only [langF, lang, hip, if_true] at hq ⊢
       obtain ⟨j, t, h1, h2, hp, hk⟩ := hq
       have hk1 : 1 ≤ rc0 f.rc := by have := rc0_pos hrc1.1; omega
-      exact ⟨j + 1, t, by omega, by omega, by omega, Iter.cons (D.any hopf hc) hp, hk⟩
+      exact ⟨j + 1, t, by omega, by omega, by omega, Iter.cons (D.any hopf hokb hc) hp, hk⟩
   · rcases hopf with h1 | h1 <;> rw [h1] <;> simp [OP_REPEAT_ANY_GREEDY, OP_REPEAT_ANY_UNGREEDY, OP_MATCH]
   · intro bm _ hnc
     exfalso
@@ -197,7 +198,7 @@ theorem ctl_step (e : Env) (D : Dir e) {r : Ir} {a b B : Nat} {K : Lang} {f : Fi
   refine ⟨fun g hg _ => h1 g hg, ?_, ?_, (ctl_facts e 0 hop).2.2.1, ?_⟩
   · intro g stop hg _
     exact absurd hg (fun hh => no_astep hh (ctl_facts e 0 hop).1)
-  · intro bm hc
+  · intro bm _ hc
     rw [(ctl_facts e 0 hop).2.1] at hc; simp at hc
   · intro bm _ _ hz
     rw [(ctl_facts e bm hop).2.2.2] at hz; simp at hz
@@ -224,8 +225,8 @@ theorem step_lift (e : Env) (D : Dir e) {r x : Ir} {a b a' b' B B' : Nat} {K : L
     refine ⟨l1, gl, ?_⟩
     intro q q' hq
     rw [hf]; rw [l2, gl] at hq; exact g2 q q' hq
-  · intro bm hc1 hc2 hc3 hc4
-    obtain ⟨g1, g2⟩ := e3 bm hc1 hc2 hc3 hc4
+  · intro bm hc0 hc1 hc2 hc3 hc4
+    obtain ⟨g1, g2⟩ := e3 bm hc0 hc1 hc2 hc3 hc4
     obtain ⟨l1, l2⟩ := lift _ _ (by rw [advance_stack]) g1
     refine ⟨l1, ?_⟩
     intro q' hq
